@@ -53,16 +53,16 @@ theorem framesC_bounded (C : FxChain ℝ φ) (amp m dt : ℝ) (info : Info ℝ) 
       have hGB : 0 ≤ G * B := mul_nonneg hG hB0
       have hts : Frame.Within (t.scale amp) (amp * (G * B)) := by
         constructor
-        · simp only [Frame.scale_left, abs_mul, abs_of_nonneg ha]
+        · simp only [FrameB.scale_left, abs_mul, abs_of_nonneg ha]
           rw [mul_comm]; exact mul_le_mul_of_nonneg_left htG.1 ha
-        · simp only [Frame.scale_right, abs_mul, abs_of_nonneg ha]
+        · simp only [FrameB.scale_right, abs_mul, abs_of_nonneg ha]
           rw [mul_comm]; exact mul_le_mul_of_nonneg_left htG.2 ha
       have hxX : Frame.Within x X := hx x (by simp)
       have hnew : Frame.Within (Frame.add x (t.scale amp)) B := by
         constructor
-        · simp only [Frame.add_left]
+        · simp only [FrameB.add_left]
           exact le_trans (abs_add_le _ _) (by linarith [hxX.1, hts.1])
-        · simp only [Frame.add_right]
+        · simp only [FrameB.add_right]
           exact le_trans (abs_add_le _ _) (by linarith [hxX.2, hts.2])
       have hstep : chunkC C amp m dt info (b :: rest, s) [x]
           = ((rest ++ [Frame.add x (t.scale amp)], (C.process s [b] dt info).1), [blend (t.scale amp) x m]) := by
